@@ -649,3 +649,197 @@ def base_numeral(ck, rule):
     if n == 0:
         raise AnalysisError("utils.base_repr: no returning path")
     ck.saw(f)
+
+
+_DIGITCHARS = set("0123456789.")
+
+
+def _flat_concat(e, out):
+    if isinstance(e, ast.BinOp) and isinstance(e.op, ast.Add):
+        _flat_concat(e.left, out)
+        _flat_concat(e.right, out)
+    elif isinstance(e, ast.Call) and isinstance(e.func, ast.Attribute) and e.func.attr == "format" and const_str(e.func.value) is not None:
+        from ..common import format_fields
+        for lit, fld, spec, conv in format_fields(e):
+            if lit:
+                out.append(ast.Constant(lit))
+            if fld is not None:
+                if spec:
+                    out.append(e)           # a width / fill spec can add characters: not a plain concatenation
+                    return
+                _flat_concat(fld, out)
+    elif isinstance(e, ast.JoinedStr):
+        for v in e.values:
+            _flat_concat(v.value if isinstance(v, ast.FormattedValue) else v, out)
+    else:
+        out.append(e)
+
+
+def _clean_chain(e, root_ok, prefix_name):
+    """e is the input string passed through character-level clean-ups only: .lower()/.upper()/.casefold()/.strip(), .replace(A, B) where A is
+    not made of digit characters alone and B adds no digit character of its own (B is '', letters, signs, or signs + the prefix).
+    Returns (True, None) / (False, reason) / (None, None) when e is not rooted at the input at all."""
+    cur = e
+    while True:
+        if root_ok(cur):
+            return True, None
+        if isinstance(cur, ast.Call) and isinstance(cur.func, ast.Attribute):
+            m = cur.func.attr
+            if m in ("lower", "upper", "casefold", "strip", "lstrip", "rstrip") :
+                if m.endswith("strip") and cur.args:
+                    a = const_str(cur.args[0])
+                    if a is None or (set(a) & _DIGITCHARS):
+                        return False, "%s(%s) can remove digits" % (m, src(cur.args[0]))
+                cur = cur.func.value
+                continue
+            if m == "replace" and len(cur.args) >= 2:
+                a = const_str(cur.args[0])
+                if a is None or a == "" or not (set(a) - _DIGITCHARS):
+                    return False, "replace(%s, ...) removes digit characters" % src(cur.args[0])[:30]
+                parts = []
+                _flat_concat(cur.args[1], parts)
+                for p in parts:
+                    if dotted(p) == prefix_name:
+                        continue
+                    s = const_str(p)
+                    if s is None or (set(s) & _DIGITCHARS):
+                        return False, "replace(..., %s) inserts characters that are not the prefix" % src(cur.args[1])[:40]
+                cur = cur.func.value
+                continue
+        return None, None
+
+
+def prefix_helper(ck, rule):
+    """C11.R8: utils.add_binary_prefix returns the selected prefix followed by the caller's digits: on every returning path the result is a
+    concatenation of `prefix` and the input string passed through character clean-ups only (case folding, removal of blanks / of an old prefix,
+    i -> j); no digit or point is added or removed, so an n_word-character image stays n_word characters long."""
+    prog = ck.prog
+    f = prog.func("utils.add_binary_prefix")
+    params = [a.arg for a in f.node.args.args]
+    if len(params) < 2:
+        raise AnalysisError("utils.add_binary_prefix: parameters not found")
+    xname, pname = params[0], params[1]
+
+    def root_ok(e):
+        d = dotted(e)
+        if d == xname:
+            return True
+        return isinstance(e, ast.Call) and not e.args and dotted(e.func) in (xname + ".item", "str") or (isinstance(e, ast.Call) and dotted(e.func) == "str" and len(e.args) == 1 and root_ok(e.args[0]))
+    n = 0
+    for pf in fpaths(prog, f):
+        if pf.end != "return" or pf.ret is None:
+            continue
+        n += 1
+        parts = []
+        _flat_concat(pf.ret, parts)
+        chains, bad = 0, None
+        for p in parts:
+            if dotted(p) == pname:
+                continue
+            s = const_str(p)
+            if s is not None:
+                if set(s) & _DIGITCHARS:
+                    bad = "literal %r joined to the digits" % s
+                continue
+            okc, why = _clean_chain(p, root_ok, pname)
+            if okc is True:
+                chains += 1
+            elif okc is False:
+                bad = why
+            else:
+                bad = "operand %s is neither the prefix nor the cleaned input" % src(p)[:50]
+        if bad is None and chains != 1:
+            bad = "the input's digits appear %d times in the result" % chains
+        ck.check(bad is None, rule, f, "add_binary_prefix returns prefix + the caller's digits (character clean-ups only)",
+                 "returns %s: %s" % (src(pf.ret)[:80], bad), pf.ret_stmt,
+                 "a digit or point added / removed by the prefix helper changes the length of the rendered image (bin() is no longer n_word characters) or the parsed code")
+    if n == 0:
+        raise AnalysisError("utils.add_binary_prefix: no returning path")
+    ck.saw(f, paths=n)
+
+
+def _rank_test(t, subject):
+    """(meaning if true, meaning if false) of a rank test on `subject`, meanings 'rank1' / 'scalar' / None"""
+    if isinstance(t, ast.Compare) and len(t.ops) == 1:
+        l, op, r = t.left, t.ops[0], t.comparators[0]
+        ld = dotted(l)
+        is_ndim = ld == subject + ".ndim" or (isinstance(l, ast.Call) and dotted(l.func) in ("np.ndim",) and l.args and dotted(l.args[0]) == subject) \
+            or (isinstance(l, ast.Call) and dotted(l.func) == "len" and l.args and dotted(l.args[0]) in (subject + ".shape",)) \
+            or (isinstance(l, ast.Call) and dotted(l.func) == "len" and l.args and isinstance(l.args[0], ast.Call) and dotted(l.args[0].func) in ("np.shape",) and l.args[0].args and dotted(l.args[0].args[0]) == subject)
+        if is_ndim and isinstance(r, ast.Constant) and isinstance(r.value, int):
+            c = r.value
+            if (isinstance(op, ast.Gt) and c == 0) or (isinstance(op, ast.GtE) and c == 1) or (isinstance(op, ast.NotEq) and c == 0):
+                return ("rank1", "scalar")
+            if (isinstance(op, ast.Eq) and c == 0) or (isinstance(op, ast.Lt) and c == 1) or (isinstance(op, ast.LtE) and c == 0):
+                return ("scalar", "rank1")
+        if ld == subject + ".shape" and isinstance(r, ast.Tuple) and not r.elts:
+            if isinstance(op, ast.NotEq):
+                return ("rank1", "scalar")
+            if isinstance(op, ast.Eq):
+                return ("scalar", "rank1")
+    if isinstance(t, ast.Call) and dotted(t.func) == "isinstance" and len(t.args) == 2 and dotted(t.args[0]) == subject:
+        names = [dotted(e) for e in (t.args[1].elts if isinstance(t.args[1], ast.Tuple) else [t.args[1]])]
+        if "np.ndarray" in names:
+            return (None, "scalar")        # not an array at all: a plain number
+    if isinstance(t, ast.Call) and dotted(t.func) in ("np.isscalar",) and t.args and dotted(t.args[0]) == subject:
+        return ("scalar", None)
+    if isinstance(t, ast.UnaryOp) and isinstance(t.op, ast.Not):
+        a, b = _rank_test(t.operand, subject)
+        return (b, a)
+    if isinstance(t, ast.BoolOp):
+        sub = [_rank_test(v, subject) for v in t.values]
+        if isinstance(t.op, ast.And):
+            tr = next((a for a, _ in sub if a), None)                       # all conjuncts hold: any one's meaning holds
+            fa = sub[0][1] if all(b == sub[0][1] for _, b in sub) else None   # some conjunct fails: only a common meaning is certain
+            return (tr, fa)
+        fa = next((b for _, b in sub if b), None)
+        tr = sub[0][0] if all(a == sub[0][0] for a, _ in sub) else None
+        return (tr, fa)
+    return (None, None)
+
+
+def rank_dispatch(ck, rule):
+    """C11.R9: bin(), hex() and base_repr() render element-wise exactly when the stored buffer has rank >= 1: every path that iterates over the
+    buffer is selected by a rank test (ndim > 0 / shape != ()), every path that renders the buffer as one number by its negation (rank 0 or
+    not an array).  A size test is not a rank test: a one-element array has size 1 and rank 1."""
+    prog = ck.prog
+    n = 0
+    for qn in ("objects.Fxp.bin", "objects.Fxp.hex", "objects.Fxp.base_repr"):
+        f = prog.func(qn)
+        seen = set()
+        for pf in fpaths(prog, f):
+            if pf.end != "return" or pf.ret is None:
+                continue
+            iters = False
+            whole = False
+            for nd in ast.walk(pf.ret):
+                if isinstance(nd, (ast.ListComp, ast.GeneratorExp)):
+                    it = peel(nd.generators[0].iter)[0]
+                    if dotted(it) == "self.val" or (isinstance(it, ast.Call) and dotted(it.func) in ("self.bin", "self.hex") and not it.args):
+                        iters = True
+                elif isinstance(nd, ast.Call) and dotted(nd.func) in ("map",) and len(nd.args) == 2 and dotted(peel(nd.args[1])[0]) == "self.val":
+                    iters = True
+                elif isinstance(nd, ast.Call) and dotted(nd.func) in ("int", "float") and nd.args and dotted(nd.args[0]) in ("self.val", "self.val.real", "self.val.imag"):
+                    whole = True
+            if not iters and not whole:
+                continue
+            meanings = set()
+            for t, out in [(g[0], g[1]) for g in pf.guards] + list(path_literals(pf.guards)):
+                a, b = _rank_test(t, "self.val")
+                m = a if out else b
+                if m:
+                    meanings.add(m)
+            need = "rank1" if iters else "scalar"
+            key = (need, tuple(sorted(meanings)))
+            n += 1
+            if key in seen:
+                continue
+            seen.add(key)
+            sizeg = [src(g[0])[:60] for g in pf.guards if ".size" in src(g[0]) or "len(self.val)" in src(g[0])]
+            ck.check(need in meanings and len(meanings) == 1, rule, f,
+                     "%s() %s under a rank test on the stored buffer" % (f.name, "iterates over the elements" if iters else "renders the buffer as one number"),
+                     "%s path selected by %s" % ("element-wise" if iters else "scalar", sizeg or [src(g[0])[:50] for g in pf.guards][-2:]), pf.ret_stmt,
+                     "a one-element array (size 1, rank 1) is sent down the scalar path, or a 0-d value down the iterating one: rendering fails or loses the array structure")
+        ck.saw(f)
+    if n < 12:
+        raise AnalysisError("renderers: array/scalar render paths not found (%d)" % n)
